@@ -77,8 +77,12 @@ var dirSeq int
 // NewDir returns a fresh empty directory path (not created).
 func NewDir() string {
 	dirSeq++
-	return filepath.Join(ScratchRoot, fmt.Sprintf("d%d", dirSeq))
+	return filepath.Join(ScratchRoot, fmt.Sprintf("d%d%s", dirSeq, DirSuffix))
 }
+
+// DirSuffix is appended to the names of new database directories (directory names with glob
+// metacharacters, spaces, ...).
+var DirSuffix = ""
 
 // Inst is one real database instance under test together with the reference model.
 type Inst struct {
